@@ -16,6 +16,31 @@ M_FIELDS = ["type", "create_id", "measurement_outcome", "measurement_basis", "di
             "remote_node_id", "goodness", "bell_state"]
 
 
+# netqasm.sdk offers no way to set the basis probabilities of a measure-directly request (fields 10-13 of the request array stay 0,
+# which makes SimulaQron choose Z always); an application writing the array itself can.  The harness sets NEXT_PROBS = [l1, l2, r1, r2]
+# before create_measure and the serializer below writes them into the array the SDK builds.
+NEXT_PROBS = [None]
+
+
+def _install_probs():
+    import netqasm.sdk.builder as B
+    if getattr(B.serialize_request, "_sq_probs", False):
+        return
+    orig = B.serialize_request
+
+    def serialize_request(tp, params):
+        arr = orig(tp, params)
+        pr = NEXT_PROBS[0]
+        if pr is not None and tp.name == "M":
+            for k, v in zip((10, 11, 12, 13), pr):
+                if v:
+                    arr[k] = v
+        NEXT_PROBS[0] = None
+        return arr
+    serialize_request._sq_probs = True
+    B.serialize_request = serialize_request
+
+
 def sdk_messages(names, node, app_id, sockets, body, max_qubits=5, ids=None):
     """run `body(conn, eprs)` on a DebugConnection for `node`; returns the raw host messages (InitNewApp, OpenEPRSocket.., Subroutine.., StopApp)
     sockets: list of (remote node name, local socket id, remote socket id)"""
@@ -23,6 +48,7 @@ def sdk_messages(names, node, app_id, sockets, body, max_qubits=5, ids=None):
     from netqasm.sdk.connection import DebugConnection
     from netqasm.backend.messages import deserialize_host_msg, SignalMessage
     DebugConnection.node_ids = dict(ids) if ids is not None else Q.node_ids(names)
+    _install_probs()
     eprs = [EPRSocket(r, epr_socket_id=l, remote_epr_socket_id=rs) for (r, l, rs) in sockets]
     DebugConnection._app_ids = {}          # class-level registry of the SDK: every application starts fresh
     with DebugConnection(node, app_id=app_id, epr_sockets=eprs, max_qubits=max_qubits) as conn:
